@@ -819,8 +819,38 @@ def r186(facts, res):
                 '(%d tokens pushed) with no terminator: a setting that renders as a prefix of the old one (e.g. Public vs PublicCrate, the last field) is a false cache hit' % len(muts))
 
 
+LOSSY_PATH_PARTS = ('file_name', 'file_stem', 'file_prefix', 'extension', 'parent', 'strip_prefix', 'components', 'ancestors', 'iter')
+
+
+def r1812(facts, res):
+    """A setting recorded in the cache record is recorded WHOLE.  The skip decision compares the record of the previous build
+    with today's; a setting reduced to a part of itself (the grammar path to its file name, "because the directory is
+    machine-specific") makes two different configurations look alike, and a changed setting no longer causes regeneration.
+    Decided for the path-valued settings: rebuild_cache (and its closures) calls no component projection of std::path::Path."""
+    R = 'R18.12'
+    rc = facts.one(R, 'CTParserBuilder::rebuild_cache', crate='lrpar', name='rebuild_cache', impl_re='^' + PB)
+    if rc is None:
+        return
+    bodies = [rc] + list(facts.closures_of(rc))
+    bad, npath = [], 0
+    for x in bodies:
+        for bb, t in x.calls():
+            c = callee_of(t)
+            pth = (c.get('path') or '')
+            if 'std::path::Path' in pth or 'std::path::PathBuf' in pth:
+                npath += 1
+                if c['name'] in LOSSY_PATH_PARTS:
+                    bad.append('line %s: the recorded path goes through Path::%s' % (t.get('line'), c['name']))
+    key = 'settings-recorded-whole'
+    if bad:
+        res.bad(R, key, loc_of(rc), '; '.join(bad[:2]) + ': two different values of the setting leave the same record, so changing it does not cause regeneration', {'function': rc.path})
+    else:
+        res.ok(R, key, loc_of(rc), 'no component projection of a path on the way into the cache record (%d Path calls in rebuild_cache)' % npath)
+
+
 def run(facts, res):
     r186(facts, res)
+    r1812(facts, res)
     r187(facts, res)
     r188(facts, res)
     r181(facts, res)
